@@ -1,3 +1,4 @@
+#![allow(dead_code, unused_variables, unused_imports, unused_assignments, unused_mut, clippy::all)]
 mod arena;
 mod audit;
 mod episode;
@@ -35,6 +36,9 @@ fn main() {
 		scale: 1.0,
 		max_seconds: 1e9,
 		known: Vec::new(),
+		miri: cfg!(miri),
+		leakcheck: false,
+		shard: (0, 1),
 	};
 	let mut out: Option<String> = None;
 	let mut i = 2;
@@ -61,6 +65,12 @@ fn main() {
 			"--max-seconds" => {
 				i += 1;
 				cfg.max_seconds = args[i].parse().unwrap_or_else(|_| usage());
+			}
+			"--leakcheck" => cfg.leakcheck = true,
+			"--shard" => {
+				i += 1;
+				let (a, b) = args[i].split_once('/').unwrap_or_else(|| usage());
+				cfg.shard = (a.parse().unwrap_or_else(|_| usage()), b.parse().unwrap_or_else(|_| usage()));
 			}
 			"--known" => {
 				i += 1;
@@ -99,6 +109,20 @@ fn main() {
 			};
 			props::conc::run(&cfg, &plan)
 		}
+		"racefam" => props::racefam::run(&cfg),
+		"canary_race" => {
+			props::racefam::canary("race");
+			return;
+		}
+		"canary_leak" => {
+			props::racefam::canary("leak");
+			return;
+		}
+		"canary_uaf" => {
+			props::racefam::canary("uaf");
+			return;
+		}
+		"dropfam" => props::dropfam::run(&cfg),
 		"dupfam" => props::dupfam::run(&cfg),
 		"faultfam" => props::faultfam::run(&cfg),
 		"keyfam" => props::keyfam::run(&cfg),
